@@ -181,7 +181,7 @@ def run_case(case):
                 sigs.append(sorted(pats))
         sample = {'kind': 'random', 'example': pats}
         return {'viol': viol[:15], 'evals': stats['accept_evals'],
-                'sig': [[s] for s in sigs][:2000] or None,
+                'sig': {'multi': sigs[:2000]} if sigs else None,
                 'counters': stats, 'sample': sample}
     return run_e2e(case, stats, viol)
 
@@ -284,4 +284,5 @@ def run_e2e(case, stats, viol):
         finally:
             vworld.destroy(root)
     return {'viol': viol[:15], 'evals': stats['e2e_runs'],
-            'sig': sigs or None, 'counters': stats, 'sample': sample}
+            'sig': {'multi': sigs} if sigs else None, 'counters': stats,
+            'sample': sample}
